@@ -403,7 +403,7 @@ theorem doSheet_layout (sl : Nat) (hl : p.lineNumbers = false) (hl' : q.lineNumb
   intro ih
   cases A <;> cases B <;> simp only [ExRel] at ih
   · simp [Except.map, ih]
-  · simp only [lineNumbers, hl, hl', Bool.false_eq_true, if_false, pure, Except.pure, Except.map]
+  · simp only [lineNumbers, hl, hl', Bool.false_and, Bool.false_eq_true, if_false, pure, Except.pure, Except.map]
     rw [stripWs_sheetJoin hp, stripWs_sheetJoin hq, ih]
 
 end
